@@ -100,7 +100,7 @@ class CallMixin:
             for t in [t for t in self.p.methods if 'netpoll' in t and t.startswith('*') and self.p.implements(t, ins['iface']) and self.p.method(t, m)]:
                 if self.feasible(st, recv.tag == self.p.typeid(t)) and not self.feasible(st, recv.tag != self.p.typeid(t)):
                     if z3.is_expr(recv.val): st.assume(And(recv.val >= 0, recv.val <= st.alloc))
-                    return self.call_named(fr, st, ins, site, self.p.method(t, m), [recv.val] + list(args), None, cont, spawn)
+                    return self.call_named(fr, st, ins, site, self.p.method(t, m), [recv.val] + list(args), None, cont, spawn, via_iface=True)
         c = self.iface_contract(ins['iface'], m)
         if c is None:
             # unexported package interface: only package types can be stored in it (closed world) -> dispatch per type
@@ -115,14 +115,14 @@ class CallMixin:
                         if not self.feasible(st, cnd): continue
                         s2 = st.copy(); s2.assume(cnd)
                         if t.startswith('*') and z3.is_expr(recv.val): s2.assume(And(recv.val >= 0, recv.val <= s2.alloc))
-                        self.call_named(fr.fork(), s2, ins, site, self.p.method(t, m), [recv.val] + list(args), None, cont, spawn)
+                        self.call_named(fr.fork(), s2, ins, site, self.p.method(t, m), [recv.val] + list(args), None, cont, spawn, via_iface=True)
                     return
         if c is None:
             self.assumptions.add('interface call %s.%s on an unknown dynamic type: no contract, assumed to return arbitrary values and to leave netpoll state unchanged' % (self.shortfn(ins['iface']), m))
             return cont(st, self.fresh_results(st, ins.get('sig')))
         return self.apply_contract(fr, st, c, None, [recv] + list(args), ins, site, cont, sig=ins.get('sig'), recv_iface=True)
 
-    def call_named(self, fr, st, ins, site, name, args, bind, cont, spawn=False):
+    def call_named(self, fr, st, ins, site, name, args, bind, cont, spawn=False, via_iface=False):
         h = self.externs.get(name)
         if h is not None:
             return h(self, fr, st, ins, site, args, cont)
@@ -130,6 +130,11 @@ class CallMixin:
         g = self.p.funcs.get(name)
         top = self.top_name
         if c is not None and c.kind in ('func', 'extern') and not c.inline:
+            if (self.opts.get('nilrecv') and not via_iface and c.kind == 'func' and g is not None and g.j.get('recv') and args and z3.is_expr(args[0])
+                    and g.params and self.K(g.params[0]['type']) == 'ptr' and 'nilable' not in c.flags):
+                # the callee's body is verified under 'pointer receivers are non-nil': the direct caller owes that fact
+                self.oblige(st, fr, 'safety.nilrecv', self.shortfn(name), args[0] != 0, site)
+                st.assume(args[0] != 0)
             return self.apply_contract(fr, st, c, g, args, ins, site, cont, sig=ins.get('sig'), spawn=spawn, bind=bind)
         if spawn:
             self.assumptions.add('goroutine %s spawned: body verified separately (or not at all), no interleaving explored' % self.shortfn(name))
@@ -460,6 +465,15 @@ class CallMixin:
                     else:
                         v = self.zero(ets[ri])
                     vals.append(v); ri += 1
+            if ci == -1:
+                # the default branch runs only when no case is ready; a receive from a closed channel is always ready, so none of the
+                # channels of the receive cases is closed at this instant
+                for sst in states:
+                    if sst['dir'] == 2:
+                        chv = self.val(sst['chan'], f2, s2)
+                        if z3.is_expr(chv):
+                            s2.assume(Not(s2.rd('chan.closed', (chv,), B)))
+                            self.assumptions.add('a channel seen not closed by a select that took its default branch is not closed by another goroutine before this goroutine\'s next step (%s)' % self.cur)
             s2.trace.append(('select case %d' % ci, -1))
             cont(s2, TupleV(vals))
 
